@@ -352,3 +352,192 @@ Section Glue.
     unfold comp_local in HiS. apply filter_In in HiS. apply memb_In. tauto.
   Qed.
 End Glue.
+
+(* ------------------------------------------------------------------------------------------ *)
+(** * The loops of the stable solver over a list of compact components *)
+
+Definition comp_ok (c : comp) : Prop := compact_af (c_af c) (length (c_ids c)).
+
+Lemma st_a2e_eq : forall c m, comp_ok c ->
+  st_a2e c m = lift c (assignment_to_extension (length (c_ids c)) StDefault m).
+Proof. intros c m [Ha _]. unfold st_a2e. now rewrite Ha, seq_length. Qed.
+
+(* what the acceptance loop knows about a processed component: R = (local extension, accepted) *)
+Definition acc_ok (al : list nat) (pol : bool) (c : comp) (R : list nat * bool) : Prop :=
+  st (c_af c) (fst R) /\ NoDup (fst R) /\
+  (if pol then (snd R = true -> meets (la_of c al) (fst R) = true) /\
+               (snd R = false -> forall S, st (c_af c) S -> meets (la_of c al) S = false)
+   else snd R = false /\ meets (la_of c al) (fst R) = false).
+
+Section Loops.
+Variable oracle : nat -> cnf -> list lit -> answer.
+Variable thr : nat.
+Hypothesis Hthr : 1 <= thr.
+Hypothesis Hvalid : valid_oracle oracle.
+
+Lemma st_se_loop_spec : forall l merged s,
+  (forall c, In c l -> comp_ok c) ->
+  wpT (st_se_loop oracle thr l merged)
+    (fun r _ => match r with
+                | Some L => exists Ls, Forall2 (fun c S => st (c_af c) S /\ NoDup S) l Ls /\
+                                       L = merged ++ glue l Ls
+                | None => exists c, In c l /\ forall S, ~ st (c_af c) S
+                end) s.
+Proof.
+  induction l as [|c r IH]; intros merged s Hl; cbn [st_se_loop].
+  - rewrite wp_ret. exists []. split; [constructor|]. cbn [glue]. now rewrite app_nil_r.
+  - rewrite wp_bind.
+    eapply wp_mono;
+      [|apply (st_cc_spec oracle thr Hthr Hvalid c (length (c_ids c)) (Hl c (or_introl eq_refl)) [] false s);
+        intros a []].
+    intros [[m acc]|] s' Hpost; cbn [st_cc_post] in Hpost.
+    + eapply wp_mono; [|apply IH; intros c' Hc'; apply Hl; now right].
+      intros [L|] s'' H; cbv beta in H.
+      * destruct H as [Ls [HLs ->]].
+        exists (assignment_to_extension (length (c_ids c)) StDefault m :: Ls). split.
+        -- constructor; [split; [tauto|apply a2e_NoDup]|exact HLs].
+        -- cbn [glue]. rewrite (st_a2e_eq c m (Hl c (or_introl eq_refl))), app_assoc. reflexivity.
+      * destruct H as [c' [Hc' Hno]]. exists c'. split; [now right|exact Hno].
+    + rewrite wp_ret. exists c. split; [now left|]. intros S HS. specialize (Hpost S HS). discriminate.
+Qed.
+
+Lemma st_accept_loop_spec : forall al pol sou l merged found s,
+  (forall c, In c l -> comp_ok c) ->
+  wpT (st_accept_loop oracle thr al pol sou l merged found)
+    (fun r _ =>
+       (exists Rs, Forall2 (acc_ok al pol) l Rs /\
+                   r = if found || existsb snd Rs
+                       then (negb sou, Some (merged ++ glue l (map fst Rs)))
+                       else (sou, None))
+       \/ (r = (sou, None) /\
+           exists c, In c l /\ st_cc_post c (length (c_ids c)) (la_of c al) pol None)) s.
+Proof.
+  intros al pol sou. induction l as [|c r IH]; intros merged found s Hl; cbn [st_accept_loop].
+  - assert (HQ : forall x : bool * option (list nat),
+               x = (if found then (negb sou, Some merged) else (sou, None)) ->
+               (exists Rs, Forall2 (acc_ok al pol) [] Rs /\
+                   x = if found || existsb snd Rs
+                       then (negb sou, Some (merged ++ glue [] (map fst Rs)))
+                       else (sou, None))
+               \/ (x = (sou, None) /\
+                   exists c, In c [] /\ st_cc_post c (length (c_ids c)) (la_of c al) pol None)).
+    { intros x ->. left. exists []. split; [constructor|]. cbn [existsb map glue].
+      now rewrite orb_false_r, app_nil_r. }
+    destruct found; rewrite wp_ret; now apply HQ.
+  - rewrite wp_bind. fold (la_of c al).
+    eapply wp_mono;
+      [|apply (st_cc_spec oracle thr Hthr Hvalid c (length (c_ids c)) (Hl c (or_introl eq_refl))
+                 (la_of c al) pol s); intros a Ha; exact (proj1 (in_la_of c al a Ha))].
+    intros [[m acc]|] s' Hpost.
+    + eapply wp_mono; [|apply IH; intros c' Hc'; apply Hl; now right].
+      intros x s'' [[Rs [HRs ->]]|[-> [c' [Hc' Hno]]]].
+      * left. exists ((assignment_to_extension (length (c_ids c)) StDefault m, acc) :: Rs). split.
+        -- constructor; [|exact HRs]. unfold acc_ok. cbn [fst snd]. cbn [st_cc_post] in Hpost.
+           split; [tauto|]. split; [apply a2e_NoDup|tauto].
+        -- cbn [existsb map glue fst snd].
+           rewrite (st_a2e_eq c m (Hl c (or_introl eq_refl))), <- app_assoc.
+           replace (found || (acc || existsb snd Rs)) with (acc || found || existsb snd Rs)
+             by (destruct acc, found; reflexivity).
+           reflexivity.
+      * right. split; [reflexivity|]. exists c'. split; [now right|exact Hno].
+    + rewrite wp_ret. right. split; [reflexivity|]. exists c. split; [now left|exact Hpost].
+Qed.
+
+End Loops.
+
+(* ------------------------------------------------------------------------------------------ *)
+(** * Pure consequences of the loop postconditions over a decomposition *)
+
+Lemma Forall2_in_r : forall (A B : Type) (P : A -> B -> Prop) l l',
+  Forall2 P l l' -> forall y, In y l' -> exists x, In (x, y) (combine l l') /\ P x y.
+Proof.
+  intros A B P l l' H. induction H as [|a b l l' Hab H IH]; intros y Hin; [destruct Hin|].
+  destruct Hin as [<-|Hin].
+  - exists a. split; [now left|exact Hab].
+  - destruct (IH y Hin) as [x [H1 H2]]. exists x. split; [now right|exact H2].
+Qed.
+
+Lemma in_combine_map_r : forall (A B C : Type) (f : B -> C) (l : list A) (l' : list B) x y,
+  In (x, y) (combine l l') -> In (x, f y) (combine l (map f l')).
+Proof.
+  intros A B C f. induction l as [|a r IH]; intros l' x y H; [destruct H|].
+  destruct l' as [|b r']; [destruct H|]. cbn [map combine In] in *.
+  destruct H as [E|H]; [left; injection E as <- <-; reflexivity|right; now apply IH].
+Qed.
+
+Lemma existsb_false_elim : forall (A : Type) (f : A -> bool) l x,
+  existsb f l = false -> In x l -> f x = false.
+Proof.
+  intros A f l x H Hin. destruct (f x) eqn:E; [|reflexivity].
+  rewrite <- H. symmetry. apply existsb_exists. now exists x.
+Qed.
+
+Section Glue2.
+  Variable F : af.
+  Variable ccs : list comp.
+  Hypothesis Hok : decomp_ok F ccs.
+
+  Lemma glue_ext_full : forall s Ls,
+    Forall2 (fun c S => ext s (c_af c) S /\ NoDup S) ccs Ls ->
+    ext s F (glue ccs Ls) /\ NoDup (glue ccs Ls) /\ incl (glue ccs Ls) (args F).
+  Proof.
+    intros s Ls H.
+    assert (Hloc : Forall2 local_set ccs Ls).
+    { eapply Forall2_impl; [|exact H]. intros c S Hc [H1 H2]. exact (ext_local_set F ccs Hok s c S Hc H2 H1). }
+    split; [|split].
+    - apply (glue_ext F ccs Hok s). eapply Forall2_impl; [|exact H]. intros c S _ [H1 _]. exact H1.
+    - exact (glue_nodup F ccs Hok Ls Hloc).
+    - exact (glue_in_args F ccs Hok Ls Hloc).
+  Qed.
+
+  Lemma acc_glue_st : forall al pol Rs, Forall2 (acc_ok al pol) ccs Rs ->
+    st F (glue ccs (map fst Rs)) /\ NoDup (glue ccs (map fst Rs)) /\
+    incl (glue ccs (map fst Rs)) (args F).
+  Proof.
+    intros al pol Rs H. apply (glue_ext_full ST). apply Forall2_map_r.
+    eapply Forall2_impl; [|exact H]. intros c R _ [H1 [H2 _]]. split; assumption.
+  Qed.
+
+  (* credulous loop: some processed component accepted a listed argument *)
+  Lemma acc_found : forall al Rs, Forall2 (acc_ok al true) ccs Rs -> existsb snd Rs = true ->
+    exists a, In a al /\ In a (glue ccs (map fst Rs)).
+  Proof.
+    intros al Rs H Hex. apply existsb_exists in Hex. destruct Hex as [R [HR Hacc]].
+    destruct (Forall2_in_r _ _ _ _ _ H R HR) as [c [Hin [_ [_ [Hm _]]]]].
+    apply (local_meets_global c (fst R) al); [now apply Hm|].
+    intros x Hx. apply in_glue. exists c, (fst R). split; [|exact Hx].
+    now apply in_combine_map_r.
+  Qed.
+
+  (* credulous loop: no component accepted a listed argument *)
+  Lemma acc_not_found : forall al Rs, Forall2 (acc_ok al true) ccs Rs -> existsb snd Rs = false ->
+    ~ cred ST F al.
+  Proof.
+    intros al Rs H Hex [S [HS [a [Ha HaS]]]].
+    destruct (project_meets F ccs Hok ST S al a HS Ha HaS) as [c [Hc [HSc Hm]]].
+    destruct (Forall2_in_l _ _ _ _ _ H c Hc) as [R [Hin [_ [_ [_ Hno]]]]].
+    pose proof (existsb_false_elim _ snd Rs R Hex (in_combine_r _ _ _ _ Hin)) as Hacc.
+    rewrite (Hno Hacc _ HSc) in Hm. discriminate.
+  Qed.
+
+  (* skeptical loop: the glued extension avoids every listed argument *)
+  Lemma acc_avoids : forall al Rs, Forall2 (acc_ok al false) ccs Rs ->
+    forall a, In a al -> ~ In a (glue ccs (map fst Rs)).
+  Proof.
+    intros al Rs H a Ha Hin.
+    assert (H' : Forall2 (fun c S => st (c_af c) S /\ meets (la_of c al) S = false) ccs (map fst Rs)).
+    { apply Forall2_map_r. eapply Forall2_impl; [|exact H]. intros c R _ [H1 [_ [_ H2]]]. split; assumption. }
+    destruct (glue_elim ccs _ _ a H' Hin) as [c [S [i [Hc [_ [[HS Hm] [Hi E]]]]]]].
+    pose proof (comp_ext_incl F ccs Hok ST c S Hc HS i Hi) as Hlt. apply in_seq in Hlt.
+    apply (proj1 (meets_false _ _) Hm i); [|exact Hi].
+    apply la_of_intro; [exact (comp_ids_NoDup F ccs Hok c Hc)|lia|now rewrite E].
+  Qed.
+
+  (* skeptical loop: a component all of whose stable extensions accept a listed argument *)
+  Lemma comp_skep : forall al c, In c ccs ->
+    (forall S, st (c_af c) S -> meets (la_of c al) S = true) -> skep ST F al.
+  Proof.
+    intros al c Hc H S HS. apply (project_meets_inv c S al).
+    apply H. exact (ext_project F ccs Hok ST S c HS Hc).
+  Qed.
+End Glue2.
